@@ -110,6 +110,8 @@ def part_form(case, rec):
     parts = ((d.get("mapping") or {}).get("partitioning") or {}).get(e["out"]) or {}
     if len(parts) != 2 or any(t["kind"] != "times" for t in e["terms"]):
         return None
+    if any(f[0] == "t" and Q_ in case["decl"][f[1]] and False for t in e["terms"] for f in t["factors"] for Q_ in ()):
+        return None
     Qs = [k for k, st in parts.items() if len(st) == 1 and st[0].startswith(("uniform_shape", "nway_shape"))]
     Ws = [k for k, st in parts.items() if st == ["follow(%s)" % (Qs[0] if Qs else "")]]
     if len(Qs) != 1 or len(Ws) != 1:
@@ -135,10 +137,11 @@ def part_form(case, rec):
             for i, (R, acc) in enumerate(zip(case["decl"][f[1]], f[2])):
                 vs = [v for _, v in acc]
                 if q in vs:
-                    if R != W or len(acc) < 2 or any(c < 1 for c, _ in acc):
-                        return None            # another tensor carries the partitioned rank itself (mask operand): not this form
-                    # output-stationary: some other variable of the access is looped after Q0
-                    if not any(lo.index(v.upper()) > lo.index(Q + "0") for v in vs if v != q and v.upper() in lo):
+                    if any(c < 1 for c, _ in acc) or (R != W and len(acc) != 1) or (R == W and len(acc) < 2):
+                        return None
+                    # output-stationary: the lower level of an index-math follower resolves after Q0 (some other variable of the access is
+                    # looped later); a tensor carrying the partitioned rank itself (mask operand, access = q) is co-iterated at Q0
+                    if len(acc) >= 2 and not any(lo.index(v.upper()) > lo.index(Q + "0") for v in vs if v != q and v.upper() in lo):
                         return None
                     if [f[1], i] not in followers:
                         followers.append([f[1], i])
